@@ -305,6 +305,12 @@ def angelic_skip_targets(F, f, goal_bbs, ctx=None, label=""):
         gt = bool(goal_bbs & rt)
         if gf != gt:
             skip = true_t if gf else false_t
+            # a `nothing changed` side changes nothing: what only that side executes (its exclusive region) must not
+            # write a field of self / take a mutable borrow of one (e.g. remove the last entry and return early)
+            excl = (rt - rf) if skip == true_t else (rf - rt)
+            writes = [b for (b, kind, a_, fd, line, pl) in f.field_accesses() if b in excl and kind in ("w", "wb", "wp") and pl.get("l") == 1]
+            if writes:
+                continue
             out.add(skip)
             if ctx is not None:
                 ctx.angelic_guard("%s: `%s` guard (changed-count idiom); the side without the required call is taken to mean 'nothing changed'" % (label, (c.static or "").split("::")[-1]), f.where(sw))
